@@ -170,6 +170,12 @@ func (l *labeller) hval(v reflect.Value) string {
 		m.Iterate(func(k string, o ast.Object) {
 			kids = append(kids, "("+gs(k)+", "+l.hval(reflect.ValueOf(o))+")")
 		})
+		// the location of an ordered map is its key-order slice's backing array (what a copy must
+		// not share: Sort/Set/append go through it); an empty map has no such array yet
+		orderField := v.Elem().FieldByName("order")
+		if orderField.IsValid() && orderField.Kind() == reflect.Slice && orderField.Cap() > 0 {
+			return "(Node TgOMap " + gLoc(l.id(orderField.Pointer())) + " " + gList(kids) + ")"
+		}
 		return "(Node TgOMap " + gLoc(l.id(v.Pointer())) + " " + gList(kids) + ")"
 	}
 	switch t.Kind() {
@@ -303,6 +309,10 @@ func (d *differ) compare(o, c reflect.Value, path string) {
 		}
 		if o.Pointer() == c.Pointer() {
 			d.issues[path+":shared"] = true
+		}
+		oo, co := o.Elem().FieldByName("order"), c.Elem().FieldByName("order")
+		if oo.IsValid() && co.IsValid() && oo.Cap() > 0 && co.Cap() > 0 && oo.Pointer() == co.Pointer() {
+			d.issues[path+".order:shared"] = true
 		}
 		om := o.Interface().(*orderedmap.Map[string, ast.Object])
 		cm := c.Interface().(*orderedmap.Map[string, ast.Object])
